@@ -624,7 +624,7 @@ func TestEngine(t *testing.T) {
 	}
 	if c.Worker >= 0 {
 		core.QuietStderr()
-		core.StartWatchdog(40*time.Second, onStall)
+		core.StartWatchdog(120*time.Second, onStall)
 		worker(t, c)
 		return
 	}
